@@ -134,7 +134,12 @@ class Ctx:
                     return None, "coqc failed on %s:\n%s" % (rel, out[-2000:])
                 open(cache, "w").write(out)
             n_closed = out.count("Closed under the global context")
-            ax = re.findall(r"^Axioms:\n((?:.+\n)+?)(?=\S|\Z)", out, re.M)
+            # each "Axioms:" block lists the axioms one theorem depends on: "<Qualified.name> : type" or "<Qualified.name>" + indented type
+            ax = []
+            for blk in re.split(r"^(?=Axioms:|Closed under the global context)", out, flags=re.M):
+                if blk.startswith("Axioms:"):
+                    names = re.findall(r"^([A-Za-z_][\w.']*)(?=\s*:|\s*$)", blk[len("Axioms:"):], re.M)
+                    ax.append(", ".join(sorted(set(names))))
             total += len(thms)
             names += thms
             closed += n_closed
